@@ -9,6 +9,7 @@ From WG Require Import BV.RefSel.
 From WG Require Import BV.Bits.
 From WG Require Import Par.Splice.
 From WG Require Import Flags.Props.
+From WG Require Import Split.Model.
 
 Extraction Language OCaml.
 
@@ -56,4 +57,29 @@ Extraction "model.ml"
   representable
   java_from_props
   version
+  scan
+  subg
+  slices
+  cuts_ok
+  seq_lab
+  ra_lab
+  left_lab
+  right_lab
+  unit_lab
+  permuted_lab
+  noloops_lab
+  par_lab
+  union_lab
+  lb_iter
+  split_iter
+  into_par_uniform
+  into_par_cutpoints
+  uniform_cuts
+  node_ranges
+  chainb
+  fair_chunks_new
+  fair_chunks_with
+  dcf_of
+  dcf_cuts
+  cumul
 .
